@@ -306,7 +306,9 @@ func genSpec(r *simk.Rand, i, np int, focus, algo string) BSpec {
 		if r.Bool(0.5) {
 			sp.Flags |= fStatusTime
 		}
-		switch r.Intn(3) {
+		switch r.Intn(4) {
+		case 3:
+			sp.ReportTo = "dtn:none"
 		case 0:
 			sp.ReportTo = fmt.Sprintf("dtn://r%d/rep", r.Range(1, 3))
 		case 1:
